@@ -153,7 +153,31 @@ def _pieces_tile(ctx, clause, inp, r: Rectangle, pieces: list[Rectangle], mode: 
                     return
 
 
+def coordinate_comparison(ctx: Ctx, op: str, a: Rectangle, b, extra, inp) -> None:
+    """'containment, point membership … match coordinate comparison', read literally: the predicates must agree with
+    plain comparisons of the coordinates the rectangle itself reports (`bounding_box`) — no arithmetic on our side, so
+    the clause is exact at every float input, including decimal edge coincidences."""
+    ba = a.bounding_box
+    if op == "pin":
+        px, py = extra
+        exp = ba.ll.x <= px <= ba.ur.x and ba.ll.y <= py <= ba.ur.y
+        if a.point_inside(Point(px, py)) != exp:
+            ctx.spec_fail("pointInside_iff:reported-coordinates", inp, {"expected": exp, "bb": [ba.ll.x, ba.ll.y, ba.ur.x, ba.ur.y]})
+    elif op == "inside":
+        bbb = b.bounding_box
+        exp = ba.ll.x >= bbb.ll.x and ba.ll.y >= bbb.ll.y and ba.ur.x <= bbb.ur.x and ba.ur.y <= bbb.ur.y
+        if a.is_inside(b) != exp:
+            ctx.spec_fail("isInside_iff_coords:reported-coordinates", inp, {"expected": exp})
+    elif op in ("xcut", "ycut"):
+        x = extra[0]
+        lo, hi = (ba.ll.x, ba.ur.x) if op == "xcut" else (ba.ll.y, ba.ur.y)
+        got = a.x_cuttable(*extra) if op == "xcut" else a.y_cuttable(*extra)
+        if got and not (lo < x < hi):
+            ctx.spec_fail(op[0] + "Cuttable_imp_strict_inside:reported-coordinates", inp, {"x": x, "lo": lo, "hi": hi})
+
+
 def spec_on_impl(ctx: Ctx, op: str, a: Rectangle, b, mode: str, extra, inp) -> None:
+    coordinate_comparison(ctx, op, a, b, extra, inp)
     ax0, ay0, ax1, ay1 = bb(a)
     if op in PAIR_OPS:
         bx0, by0, bx1, by1 = bb(b)
@@ -368,7 +392,52 @@ def _is_tie(op, a, b, extra, model) -> bool:
     return any(r != model for r in run_driver(reqs))
 
 
+def history_case(ctx: Ctx, rng) -> None:
+    """a rectangle that is queried, then moved / resized (in place through its Point / Shape, or through the setters),
+    then queried again must answer exactly like a fresh rectangle with the new coordinates (no stale derived state)."""
+    fam = rng.choice(geo.EXACT_FAMILIES + geo.FLOAT_FAMILIES)
+    a, b = geo.rand_rect(rng, fam), geo.rand_rect(rng, fam)
+    px, py = geo.coord(rng, fam), geo.coord(rng, fam)
+
+    def observe(r):
+        bbx = r.bounding_box
+        return [bbx.ll.x, bbx.ll.y, bbx.ur.x, bbx.ur.y, r.area, r.point_inside(Point(px, py)), r.is_inside(b), b.is_inside(r),
+                r.area_overlap(b), b.area_overlap(r), None if r * b is None else geo.rect_dict(r * b),
+                r.x_cuttable(px), r.y_cuttable(py), r.aspect_ratio, [geo.rect_dict(p) for p in r.split()],
+                [geo.rect_dict(p) for p in r.rectangle_grid(2, 3)]]
+    try:
+        observe(a)                                          # first query (may populate derived state)
+        nx, ny = geo.coord(rng, fam), geo.coord(rng, fam)
+        nw, nh = a.shape.w * rng.choice([0.5, 1, 2, 1.5]), a.shape.h * rng.choice([0.5, 1, 2, 0.75])
+        how = rng.choice(["inplace", "setters", "mixed"])
+        if how == "inplace":
+            a.center.x, a.center.y = nx, ny
+            a.shape.w, a.shape.h = nw, nh
+        elif how == "setters":
+            a.center = Point(nx, ny)
+            from frame.geometry.geometry import Shape
+            a.shape = Shape(nw, nh)
+        else:
+            a.center.x = nx
+            a.center = Point(a.center.x, ny)
+            a.shape.h = nh
+            a.shape.w = nw
+        fresh = geo.mk_rect(nx, ny, nw, nh, a.region, a.fixed, a.hard)
+        got, exp = observe(a), observe(fresh)
+    except Exception as ex:
+        ctx.spec_fail("operation-raised", {"stream": "history", "family": fam}, {"exception": type(ex).__name__, "message": str(ex)[:200]})
+        return
+    inp = {"stream": "history", "how": how, "family": fam, "a_after": geo.rect_dict(fresh), "b": geo.rect_dict(b), "p": [px, py]}
+    ctx.case("history", (how, inp["a_after"], inp["b"], px, py), True)
+    ctx.count("history:" + how)
+    if got != exp:
+        k = next(i for i, (u, v) in enumerate(zip(got, exp)) if u != v)
+        ctx.spec_fail("no-stale-state:moved-rectangle-equals-fresh-one", inp, {"observation_index": k, "moved": str(got[k])[:200], "fresh": str(exp[k])[:200]})
+
+
 def run(ctx: Ctx) -> None:
+    for _ in range(ctx.n(400, 5000)):
+        history_case(ctx, ctx.rng)
     ctx.rule = ("random rectangle pairs / cuts / grids from 5 coordinate families (int, half, dyadic: exact 'Q' stream; "
                 "decimal, thirds, uniform doubles: 'F' stream), 25% structurally related pairs (abutting, identical, nested, "
                 "corner-touching, crossing); a case is non-trivial unless it is a disjoint pair for an overlap op (70% of those "
@@ -407,6 +476,10 @@ def lattice_exhaustive(ctx: Ctx, reqs, todo) -> None:
 
 def replay(ctx: Ctx, body: dict) -> None:
     inp = body["input"]
+    if inp.get("stream") == "history":
+        for _ in range(400):
+            history_case(ctx, ctx.rng)
+        return
     a, b = (geo.mk_rect(d["cx"], d["cy"], d["w"], d["h"], d["region"], d["fixed"], d["hard"]) for d in (inp["a"], inp["b"]))
     extra = inp["extra"]
     if isinstance(extra, list):
